@@ -80,6 +80,8 @@ pub enum Sz {
   Rm(u32),
   /// remaining() + k
   Rp(u32),
+  /// u32::MAX - allocated() + k (the size at which cursor + size wraps around)
+  Wrap(i32),
 }
 
 #[derive(Clone, Copy, Debug, PartialEq, Eq, Hash, Serialize, Deserialize)]
@@ -118,6 +120,7 @@ impl Op {
         Sz::R => "R".into(),
         Sz::Rm(k) => format!("R-{k}"),
         Sz::Rp(k) => format!("R+{k}"),
+        Sz::Wrap(k) => format!("MAX-allocated{k:+}"),
       }
     }
     fn ty(t: &Ty) -> String {
@@ -453,6 +456,7 @@ impl<A: Subject> Runner<A> {
       Sz::R => r,
       Sz::Rm(k) => r.saturating_sub(k),
       Sz::Rp(k) => r.saturating_add(k),
+      Sz::Wrap(k) => ((u32::MAX as i64) - self.a.allocated() as i64 + k as i64).clamp(0, u32::MAX as i64) as u32,
     }
   }
 
@@ -831,7 +835,7 @@ impl<A: Subject> Runner<A> {
         let m = h.meta();
         res = Res::Handle(m);
         let (off, hcap, boff, bcap) = m;
-        if a.read_only() && or & O_ERRSTATE != 0 {
+        if a.read_only() && or & O_ERRSTATE != 0 && (hcap > 0 || bcap > 0 || post != pre) {
           v.push(Viol { flag: O_ERRSTATE, class: "alloc-on-readonly".into(), msg: format!("{} succeeded on a read-only arena", op.short()) });
         }
         if or & O_CAPALIGN != 0 {
